@@ -60,3 +60,30 @@ Theorem C01_tags_set_nil_refuted :
   exists k v t', tags_set None k v = Some t' /\ tags_get t' k = None.
 Proof. exact tags_set_nil_loses_value. Qed.
 Print Assumptions C01_tags_set_nil_refuted.
+
+(* Conversely: for every line of the C02 grammar (valid UTF-8, de-duplicated tag
+   section within the limit), parsing it, serialising the result and parsing again yields
+   the same event. *)
+Require Import Utf8 StableProofs LineUtf8 SetFits.
+Theorem C01_parse_stable : forall a, wf_ast a -> valid_utf8 (render a) = true -> ast_tags_fit a = true ->
+  exists e e', parse_event (render a) = Ok (Some e) /\
+               parse_event (event_bytes e) = Ok (Some e') /\ wevent_equiv e' e.
+Proof. exact parse_stable_line. Qed.
+Print Assumptions C01_parse_stable.
+
+(* The same, stated on lines: wf_lineb is the grammar recogniser of C02 (exact by
+   C02_recogniser); line_tags_fit: the de-duplicated tag section is within the limit. *)
+Require Import LineGrammar RecogniserProofs.
+Theorem C01_parse_stable_line : forall l e,
+  wf_lineb l = true -> valid_utf8 l = true -> line_tags_fit l = true ->
+  parse_event l = Ok (Some e) ->
+  exists e', parse_event (event_bytes e) = Ok (Some e') /\ wevent_equiv e' e.
+Proof. exact parse_stable_wf_line. Qed.
+Print Assumptions C01_parse_stable_line.
+
+(* Tag maps built through the API -- Tags{} followed by successful Tags.Set calls -- meet
+   every condition wf_event puts on a tag map, including the 4094-byte limit: the tag
+   hypothesis of C01_encode_parse holds for them. *)
+Theorem C01_api_built_wf : forall m, api_built m -> wf_wtags (Some m) = true.
+Proof. exact api_built_wf. Qed.
+Print Assumptions C01_api_built_wf.
